@@ -23,6 +23,7 @@ import (
 	"bytes"
 	"fmt"
 	"io"
+	"os"
 	"runtime/debug"
 	"sort"
 	"strconv"
@@ -348,6 +349,11 @@ func c01Stmt(toks []string) (out string) {
 }
 
 func init() {
+	// VERIF_MAXSTACK_MB lowers Go's 1 GB stack limit for this process, so that unbounded recursion is
+	// detected (fatal "stack overflow") in a fraction of a second instead of several seconds.
+	if v, err := strconv.Atoi(os.Getenv("VERIF_MAXSTACK_MB")); err == nil && v > 0 {
+		debug.SetMaxStack(v << 20)
+	}
 	handlers["hist"] = c01Hist
 	handlers["stmt"] = c01Stmt
 }
